@@ -1,4 +1,5 @@
 import OrdModel.Proofs.IndexFlagsChain
+import OrdModel.Proofs.IndexFlagsValid
 import OrdModel.Proofs.IndexFlagsWitness
 import OrdModel.Index.Valid
 /-
@@ -116,6 +117,29 @@ theorem c15_partial (cfg cfg' : Cfg) (hsame : SameUpToOptionalIndexes cfg cfg')
   simp only [Outcome.ok.injEq, Prod.mk.injEq] at r
   rw [← c15_projection_of_erased u st, ← c15_projection_of_erased u' st', r.1]
 
+/-- `c15_partial` with the property's own quantifier: every valid chain (`Valid.validChain`,
+the predicate of C16) — validity gives `BlockShape` of every block. -/
+theorem c15_valid_chain_partial (cfg cfg' : Cfg) (hsame : SameUpToOptionalIndexes cfg cfg')
+    (hi : cfg.indexInscriptions = true) (hf : cfg.firstInscriptionHeight = 0)
+    (chain : List Block) (hv : Valid.validChain chain = true)
+    (hn : NullStableFrom cfg {} chain) (hn' : NullStableFrom cfg' {} chain)
+    (st st' : State) (evs evs' : List Event)
+    (h : run cfg chain = .ok (st, evs)) (h' : run cfg' chain = .ok (st', evs')) :
+    projInsRunes st = projInsRunes st' :=
+  c15_partial cfg cfg' hsame hi hf chain (blockShape_of_validChain chain hv) hn hn' st st' evs evs' h h'
+
+/-- … in particular, unconditionally (beyond validity and success of the two runs) for the
+address and transaction indexes: neither configuration has the sat index. -/
+theorem c15_addresses_transactions (cfg cfg' : Cfg) (hsame : SameUpToOptionalIndexes cfg cfg')
+    (hs : cfg.indexSats = false) (hs' : cfg'.indexSats = false)
+    (hi : cfg.indexInscriptions = true) (hf : cfg.firstInscriptionHeight = 0)
+    (chain : List Block) (hv : Valid.validChain chain = true)
+    (st st' : State) (evs evs' : List Event)
+    (h : run cfg chain = .ok (st, evs)) (h' : run cfg' chain = .ok (st', evs')) :
+    projInsRunes st = projInsRunes st' :=
+  c15_valid_chain_partial cfg cfg' hsame hi hf chain hv (nullStableFrom_of_noSats cfg hs chain {})
+    (nullStableFrom_of_noSats cfg' hs' chain {}) st st' evs evs' h h'
+
 /-- the extra hypothesis is vacuous without the sat index … -/
 theorem c15_nullStable_of_noSats (cfg : Cfg) (hs : cfg.indexSats = false) (chain : List Block) (st : State) :
     NullStableFrom cfg st chain := nullStableFrom_of_noSats cfg hs chain st
@@ -204,7 +228,7 @@ theorem c15_fails_runes_below_first_index_height :
 with first inscription height 0: there the two runs agree — the lost inscription is at
 `null:1000` in both. -/
 def w0Cfg (sats : Bool) : Cfg := ⟨sats, false, false, true, false, 0, 0, 0⟩
-example : SameUpToOptionalIndexes (w0Cfg true) (w0Cfg false) ∧ (∀ b ∈ w1Chain, BlockShape b = true) ∧
+example : SameUpToOptionalIndexes (w0Cfg true) (w0Cfg false) ∧ Valid.validChain w1Chain = true ∧
     NullStableFrom (w0Cfg true) {} w1Chain ∧ NullStableFrom (w0Cfg false) {} w1Chain ∧
     (stateAfter' (run (w0Cfg true) w1Chain)).map (fun st => (projInsRunes st).seq2sp) = some [(0, ⟨OutPoint.null, 1000⟩)] ∧
     (stateAfter' (run (w0Cfg false) w1Chain)).map (fun st => (projInsRunes st).seq2sp) = some [(0, ⟨OutPoint.null, 1000⟩)] :=
